@@ -27,13 +27,15 @@ import vlib  # noqa: E402
 TAG = "x25"
 CFG = {
     "quick": dict(mc=[("MC_LogSink_p.cfg", 3), ("MC_LogSink_r.cfg", 3), ("MC_LogSink_o.cfg", 3), ("MC_LogSink_y.cfg", 2),
-                      ("MC_LogSink_v.cfg", 1)],
-                  gen=["Gen_LogSink_p.cfg", "Gen_LogSink_r.cfg", "Gen_LogSink_o.cfg", "Gen_LogSink_l.cfg", "Gen_LogSink_y.cfg",
+                      ("MC_LogSink_h.cfg", 2), ("MC_LogSink_v.cfg", 1)],
+                  gen=["Gen_LogSink_p.cfg", "Gen_LogSink_r.cfg", "Gen_LogSink_o.cfg", "Gen_LogSink_h.cfg", "Gen_LogSink_l.cfg",
+                       "Gen_LogSink_y.cfg",
                        "Gen_LogSink_v.cfg"],
                   nexec=24, shards=2, ncxx=6),
     "thorough": dict(mc=[("MC_LogSink_pt.cfg", 4), ("MC_LogSink_rt.cfg", 4), ("MC_LogSink_ot.cfg", 4), ("MC_LogSink_yt.cfg", 3),
-                         ("MC_LogSink_r.cfg", 2), ("MC_LogSink_vt.cfg", 1), ("MC_LogSink_asfound.cfg", 1)],
-                     gen=["Gen_LogSink_pt.cfg", "Gen_LogSink_rt.cfg", "Gen_LogSink_ot.cfg", "Gen_LogSink_lt.cfg",
+                         ("MC_LogSink_r.cfg", 2), ("MC_LogSink_ht.cfg", 3), ("MC_LogSink_vt.cfg", 1),
+                         ("MC_LogSink_asfound.cfg", 1)],
+                     gen=["Gen_LogSink_pt.cfg", "Gen_LogSink_rt.cfg", "Gen_LogSink_ot.cfg", "Gen_LogSink_ht.cfg", "Gen_LogSink_lt.cfg",
                           "Gen_LogSink_yt.cfg", "Gen_LogSink_vt.cfg"],
                      nexec=180, shards=6, ncxx=30),
 }
@@ -90,18 +92,22 @@ def head_class(data):
         return "answer" if len(data) >= 2 else "short"
     if c == 9:
         return "values"
+    if c == 8:
+        return "rawvalues"
     return "other"
 
 
 def msg_context(beh, i):
-    """(sink kind, head class, cut class, earlier message abandoned) of the message the step i belongs to."""
-    kind, data, pieces, aborted = "?", [], [], False
+    """(sink kind, head class, cut class, earlier message abandoned, head class of the message before) of the message
+    the step i belongs to."""
+    kind, data, pieces, aborted, before = "?", [], [], False, None
     for st in beh[:i + 1]:
         a = st["a"]
         if a == "open":
             kind = st["arg"].get("kind", "?") + ("+pass" if st["arg"].get("pass") else "") + ("+tty" if st["arg"].get("tty") else "")
             aborted = False
         elif a == "msg":
+            before = head_class(data) if data else None
             data, pieces = st["arg"]["data"], []
         elif a == "push":
             pieces.append(len(st["arg"]["data"]))
@@ -109,19 +115,26 @@ def msg_context(beh, i):
             aborted = True
     if not pieces:
         cut = "no-piece"
-    elif len(pieces) == 1 and pieces[0] == len(data):
+    elif len(pieces) == 1 and pieces[0] == len(data) and head_class(data) != "rawvalues":
         cut = "one-piece"
+    elif head_class(data) == "rawvalues":
+        # raw values: does a piece that completes the 4 byte head (message type + value source) carry values as well?
+        pos, cut = 0, "head|values"
+        for n in pieces:
+            if pos < 4 < pos + n:
+                cut = "head+values"
+            pos += n
     elif pieces[0] < 2:
         cut = "cut-in-head"
     else:
         cut = "pieces"
     size = ",len>4096" if len(data) > 4096 else ",len>256" if len(data) > 256 else ""
-    return kind, head_class(data), cut + size, aborted
+    return kind, head_class(data), cut + size, aborted, before
 
 
 def signature(beh, i, why):
     """x25:<sink>:<action>:<differing observation>:<head class>:<cut class>[:after-abort]"""
-    kind, hc, cut, aborted = msg_context(beh, i)
+    kind, hc, cut, aborted, before = msg_context(beh, i)
     a = beh[i]["a"]
     key = why.split(":")[0].split(" ")[0]
     if a in ("log", "vlog", "set"):
@@ -129,7 +142,10 @@ def signature(beh, i, why):
         n = len(arg.get("text") or []) + len(arg.get("from") or [])
         extra = "long" if n >= 200 else "short"
         return "x25:%s:%s:%s:%s%s" % (kind, a, key, extra, ":after-abort" if aborted and a != "set" else "")
-    return "x25:%s:%s:%s:%s:%s%s" % (kind, a, key, hc, cut, ":after-abort" if aborted and a not in ("abort", "giveup") else "")
+    tail = ":after-abort" if aborted and a not in ("abort", "giveup") else ""
+    if hc in ("values", "rawvalues") and before in ("plain", "rich", "answer"):
+        tail += ":after-text"            # rows of a value message behind a text message (printed or filtered)
+    return "x25:%s:%s:%s:%s:%s%s" % (kind, a, key, hc, cut, tail)
 
 
 def case_key(beh):
@@ -337,7 +353,20 @@ def rand_message(rng, fam):
         n = rng.choice(RICH_SIZES)
         data = rng.choice(RICH_HEADS) + (rich_text(rng, n) if rng.random() < 0.6 else rand_text(rng, n, True))
     elif fam == "values":
-        data = [9, 1, 224] + [rng.randrange(256) for _ in range(rng.choice([0, 1, 5, 40]))]
+        # signed byte elements: format list of k columns, inline formats, or raw behind a value source head
+        vals = [rng.randrange(256) for _ in range(rng.choice([0, 1, 2, 3, 5, 7, 40, 300]))]
+        form = rng.choice(["list", "list", "inline", "raw", "raw"])
+        if form == "list":
+            k = rng.choice([1, 2, 3, 5])
+            data = [9, k] + [224] * k + vals
+        elif form == "inline":
+            data = [9, 0] + [b for v in vals for b in (224, v)]
+        else:
+            data = [8, rng.randrange(256), rng.randrange(256), 224] + vals
+        if rng.random() < 0.1:
+            data = data[:rng.randrange(1, min(len(data), 6) + 1)]      # ends inside its head
+    elif fam == "filtered":
+        data = [0, rng.choice([16, 20, 24, 31, 144, 152])] + rand_text(rng, rng.choice([0, 1, 5, 40]), False)
     else:
         data = rng.choice(OTHER_HEADS) + rand_text(rng, rng.choice([0, 1, 5, 300]), False)
     if rng.random() < 0.06:
@@ -356,7 +385,7 @@ def gen_traces(rng, nexec, tier, cxx=False):
     behs = []
     for m in range(nexec):
         sink = dict(rng.choice(CXX_SINKS if cxx else SINKS))
-        fams = ["plain", "plain", "rich", "rich", "other", "values", "vlog"]
+        fams = ["plain", "plain", "rich", "rich", "other", "values", "values", "vlog"]
         fam = rng.choice(fams)
         values_ok = not (sink["file"] == "none" and sink["kind"] != "logfile")   # such a history discards values (not modelled)
         if fam == "values" and not values_ok:
@@ -373,9 +402,11 @@ def gen_traces(rng, nexec, tier, cxx=False):
         data = rand_message(rng, fam)
         # the messages that go between: short ones of the other kinds
         others = []
-        for f2 in rng.sample([f for f in ("plain", "rich", "other", "values") if f != fam and (f != "values" or values_ok)], 2):
+        for f2 in rng.sample([f for f in ("plain", "rich", "other", "values", "filtered", "filtered")
+                              if f != fam and (f != "values" or values_ok)], 2):
             d2 = rand_message(rng, f2)
-            others.append(d2[:2 + min(len(d2) - 2, rng.choice([0, 3, 30]))] if len(d2) > 2 else d2)
+            keep = 6 if f2 == "values" else 2          # a value message keeps its head
+            others.append(d2[:keep + min(len(d2) - keep, rng.choice([0, 3, 30]))] if len(d2) > keep else d2)
         cuts = cuts_of(rng, len(data), 3 if full else 2, limits=(255, 256, 257, 4096, 4097, 8192))
         if len(data) > 2000:
             cuts = cuts[:1] + rng.sample(cuts[1:], min(len(cuts) - 1, 3 if full else 2))
@@ -535,6 +566,7 @@ def run_part(ck, tier):
                      "that are the beginning of another one are replayed with it; every step's expected keys are compared. "
                      "B: seeded executions on one sink each (messages up to 9000 bytes, each in 4..9 cuts one after the "
                      "other, abandoned messages, level changes, logger calls, producer calls around the 256 byte buffer), "
+                     "value messages (signed bytes as format list / inline / raw) behind filtered and printed text messages, "
                      "recorded from the real code and validated by TLC.  Non-trivial = a message went to the sink in >= 2 "
                      "pieces, was abandoned, or came from the producer; distinct by call sequence.")
     ck.assumptions += ["x25: drv/logsink.c is the pusher (offers again what a push did not take, keeps what 'missing data' "
@@ -543,7 +575,8 @@ def run_part(ck, tier):
                        "call that wrote them; return codes become ok / missing / refused)",
                        "x25: what a contiguous message looks like in the file (intro, element separators, colour codes on "
                        "a terminal) is the specification's, calibrated on one-piece runs of the same code; the rows of value "
-                       "messages are not compared here (x17 does)"]
+                       "messages are compared for elements of one signed byte (format list, inline, raw value source); "
+                       "the other element formats are x17's"]
     return ck
 
 
